@@ -40,6 +40,15 @@ func c12Program(w *World) (setup []Op, tasks [][]Op) {
 		}
 		setup = append(setup, Op{K: "link", Idx: c12Index, ID: pick(r, c12Nodes), ID2: pick(r, c12Nodes), Rel: pick(r, c12Rels[:2]), Inv: inv, W: 1})
 	}
+	// a third of the runs: some of the edges are removed again before anything is deleted, half of them physically
+	// (hard unlink, the non-default option of VUnlink): what an unlink leaves behind must not resurface later
+	if r.Intn(3) == 0 {
+		n := len(setup)
+		for i := 0; i < 1+r.Intn(3); i++ {
+			l := setup[len(c12Nodes)+r.Intn(n-len(c12Nodes))]
+			setup = append(setup, Op{K: "unlink", Idx: c12Index, ID: l.ID, ID2: l.ID2, Rel: l.Rel, Inv: l.Inv, Hard: r.Intn(2) == 0})
+		}
+	}
 	// half of the runs: the index has a graph retention and a graph vacuum runs before anything is deleted
 	// (nothing is old enough to be pruned; the vacuum only tidies up nodes)
 	if r.Intn(2) == 0 {
@@ -314,7 +323,7 @@ func runC12(w *World, tr *Trace) {
 			panic(harnessErr{"create: " + err.Error()})
 		}
 		for _, op := range setup {
-			if err, _ := w.exec(op); err != nil {
+			if err, _ := w.exec(op); err != nil && op.K != "unlink" {
 				panic(harnessErr{"setup " + op.String() + ": " + err.Error()})
 			}
 			recs = append(recs, &c12Rec{op: op, inv: nextSeq(), ret: nextSeq()})
